@@ -94,6 +94,8 @@ def session(p, at=None, kind="crash"):
         env = {"VFAULT_TRACE": str(trace), "VFAULT_PHASE": "write", "VFAULT_FMT": p["fmt"], "VFAULT_KIND": kind}
         if at is not None:
             env["VFAULT_AT"] = str(at)
+            if at % 2 == 1:
+                env["VFAULT_SIGNAL"] = "1"      # every second failing format-command is killed by a signal
         r = driver.run_pytest(d, ["--inline-snapshot=create,fix"], env=env, plugins=(PLUG,))
         if r.get("infra_error"):
             return {"infra": True}
@@ -305,7 +307,7 @@ def run_project(item):
     points = [(n, k) for n in range(len(tr_ref) + 1) for k in ("crash", "fail")]
     if budget < len(points):
         # always the boundaries around writes and persists, the rest sampled
-        key = [(n, k) for (n, k) in points if n < len(tr_ref) and tr_ref[n][0] in ("write", "open_w", "persist")]
+        key = [(n, k) for (n, k) in points if n < len(tr_ref) and (tr_ref[n][0] in ("write", "open_w", "persist") or (p["setup"] == "fmtcmd" and tr_ref[n][0] == "format" and k == "fail"))]
         rest = [x for x in points if x not in key]
         rng.shuffle(key)
         rng.shuffle(rest)
